@@ -61,4 +61,4 @@ LEVEL_TEXT = ('Bounded symbolic verification: (1) the real applyFMGInterpolation
               'FMG interpolation and must not depend on stale data; with FMG iterations >= 1 it must equal the nested iteration written out on a second solver object (configured cycle type and count, extrapolated variant on the finest level only), on 2 and 3 levels. Shapes / level counts bounded.')
 LEVEL_NOTE = 'exact arithmetic; shapes and 2-3 levels bounded; start-up coefficients from the small-rational libm mode; GMGPolar state built directly'
 TECHNIQUE = 'symbolic execution of LLVM IR (llsym) + SMT (z3 QF_NRA for the weights with symbolic spacings, cvc5 QF_LRA for the start-up)'
-DESIGN_REF = 'DESIGN.md section 6/C09'
+DESIGN_REF = 'DESIGN.md section 0 (status as built: 0.2, 0.5, 0.6) and section 6/C09 (design)'
